@@ -205,6 +205,35 @@ fn limit_shape(rng: &mut Rng) -> Vec<u8> {
     m
 }
 
+/// a filler record pushes a name and the targets of the pointers into it to
+/// offset `t` (255/256/257, 511/512, 1000, 16383): pointers that need the
+/// high six bits
+fn far_pointer(t: usize, d: usize) -> Vec<u8> {
+    let ptr = |x: usize| [0xC0 | (x >> 8) as u8, x as u8];
+    let mut m = vec![0x12, 0x34, 0x80, 0, 0, 1, 0, 3, 0, 0, 0, 0, 1, b'a', 0, 0, 1, 0, 1];
+    m.extend([0, 0xFF, 0, 0, 1, 0, 0, 0, 60]);
+    m.extend(((t - 30) as u16).to_be_bytes());
+    m.extend(std::iter::repeat(7u8).take(t - 30));
+    assert_eq!(m.len(), t);
+    m.extend(b"\x04mail\x07example\x03com\x00");
+    m.extend([0, 1, 0, 1, 0, 0, 0, 60, 0, 4, 1, 2, 3, 4]);
+    m.extend(b"\x03ftp");
+    m.extend(ptr(t + d));
+    m.extend([0, 5, 0, 1, 0, 0, 0, 60, 0, 4, 1, b'x']);
+    m.extend(ptr(t + 5));
+    m
+}
+
+/// two or three records in every section, to be cut at every length
+fn full_sections() -> Vec<u8> {
+    let mut m = vec![0x12, 0x34, 0x80, 0, 0, 1, 0, 2, 0, 2, 0, 3, 1, b'a', 0, 0, 1, 0, 1];
+    for b in 1..=6u8 {
+        m.extend([0, 0, 1, 0, 1, 0, 0, 0, 60, 0, 4, b, b, b, b]);
+    }
+    m.extend([0, 0, 41, 4, 208, 0, 0, 0, 0, 0, 0]);
+    m
+}
+
 /// a library-built message plus one record of a type with internal framing
 /// whose RDATA is a valid template hit by structural mutations (length
 /// octets, empty bitmap windows, truncation, garbage)
@@ -348,18 +377,27 @@ fn main() {
     let cap: usize = args.get(4).and_then(|s| s.parse().ok()).unwrap_or(160);
     let mut rng = Rng::new(seed);
     let mut tw = TraceWriter::create(path);
-    let mut slw = SliceProbe::new();
     let mut msgs: Vec<Vec<u8>> = vec![];
     // messages that get the full projection whatever their size
     let mut forced: Vec<Vec<u8>> = vec![];
     for _ in 0..(n / 25).max(6) {
         forced.push(limit_shape(&mut rng));
     }
+    for t in [255usize, 256, 257, 511, 512] {
+        forced.push(far_pointer(t, *rng.pick(&[0usize, 5, 13])));
+    }
+    let full = full_sections();
+    for k in 12..=full.len() {
+        forced.push(full[..k].to_vec());
+    }
     // truncation of one valid message at every offset
     let base = build_valid(&mut rng);
     for k in 0..=base.len().min(cap) {
         msgs.push(base[..k].to_vec());
     }
+    msgs.push(far_pointer(1000, 0));
+    msgs.push(far_pointer(16383, 5));
+    msgs.push(far_pointer(16383, 0));
     while msgs.len() < n {
         let m = match rng.below(12) {
             10 | 11 => typed_record(&mut rng),
@@ -397,44 +435,46 @@ fn main() {
     }
     let nforced = forced.len();
     forced.extend(msgs);
+    // every battery runs on a worker thread with a deadline: a call that
+    // never returns is recorded as {"hang": true}
+    let mut wd = Watchdog::new(make_proj_case, 30);
+    let mut probe_hangs = 0u64;
     for (idx, m) in forced.into_iter().enumerate() {
         if m.len() > cap && idx >= nforced {
-            let a = observe(|| old_projection(&m, &[], &mut SliceProbe::new(), &[]));
-            let b = observe(|| old_projection(&m, &[], &mut SliceProbe::new(), &[]));
-            let panicked = a.get("panic").is_some()
-                || a.as_object().map(|o| o.values().any(|v| v.get("panic").is_some())).unwrap_or(false);
-            // the three known panics are reported by the small messages; here
-            // only the components without a deviation are required to be total
-            let mut ok = a == b;
-            if panicked {
-                if let Some(o) = a.as_object() {
-                    ok = ok && o.iter().all(|(k, v)| v.get("panic").is_none() || k == "cname");
-                }
-            }
-            tw.event(json!({"ev": "total", "len": m.len(), "ok": ok,
+            let input = json!({"m": json_bytes(&m), "starts": []});
+            let a = wd.call(&input, &json!({}));
+            let hung = a.get("hang").is_some() || a.get("not_executed_after_hangs").is_some();
+            let bad = a.get("panic").is_some()
+                || a.get("nonidempotent").is_some()
+                || a.get("tot_panic").is_some()
+                || a.as_object().map(|o| o.iter().any(|(k, v)| v.get("panic").is_some() && k != "cname")).unwrap_or(true);
+            tw.event(json!({"ev": "total", "len": m.len(), "ok": !bad && !hung,
                             "cname_panic": a.get("cname").and_then(|c| c.get("k")).and_then(|k| k.as_str()) == Some("panic"),
                             "xfr_panic": a.get("xfr").and_then(|c| c.as_str()) == Some("panic")}));
             continue;
         }
-        // slice-iterator probes: up to 6 offsets; self-pointers only while the
-        // watchdog budget lasts (a hanging call costs a thread)
+        // slice-iterator probes: up to 6 offsets; walks that end in a pointer
+        // to itself only while the watchdog budget lasts
         let mut starts: Vec<usize> = vec![];
-        let mut flags: Vec<bool> = vec![];
+        let mut flags: Vec<i64> = vec![];
         if m.len() > 12 {
             for _ in 0..6 {
                 let s = 12 + rng.below((m.len() - 12) as u64) as usize;
                 let selfptr = reaches_selfptr(&m, s);
-                if selfptr && slw.hangs >= slw.max_hangs {
+                if selfptr && probe_hangs >= 2 {
                     continue;
                 }
                 starts.push(s);
-                flags.push(selfptr);
+                flags.push(if selfptr { SL_HANG } else { 0 });
             }
         }
-        let proj = old_projection_twice(&m, &starts, &mut slw, &flags);
+        let input = json!({"m": json_bytes(&m), "starts": starts});
+        let proj = wd.call(&input, &json!({"D_slice_iter": {"sl": flags}}));
+        probe_hangs = SLICE_HANGS.load(std::sync::atomic::Ordering::Relaxed);
         tw.event(json!({"ev": "read", "m": json_bytes(&m), "starts": starts, "proj": proj}));
     }
+    let slw_hangs = probe_hangs;
     let n = tw.finish();
-    println!("RECORDED {} hangs {}", n, slw.hangs);
+    println!("RECORDED {} hangs {} battery_hangs {}", n, slw_hangs, wd.hangs);
     std::process::exit(0);
 }
